@@ -125,7 +125,12 @@ pub fn apply(book: &mut Spreadsheet, op: &Op) -> bool {
             s.get_cell_mut(cell.as_str()).set_value_bool(*v);
         }),
         Op::SetFormula { sheet, cell, f, result } => sheet_mut(book, *sheet).map(|s| {
-            s.get_cell_mut(cell.as_str()).set_formula(f.clone()).set_formula_result_default(result.clone());
+            // "s:..." is a cached TEXT result (what Excel stores for =TEXT(..), =LEFT(..), =A1&""), whatever it looks like
+            if let Some(text) = result.strip_prefix("s:") {
+                s.get_cell_mut(cell.as_str()).set_value_string(text.to_string()).set_formula(f.clone());
+            } else {
+                s.get_cell_mut(cell.as_str()).set_formula(f.clone()).set_formula_result_default(result.clone());
+            }
         }),
         Op::SetBlank { sheet, cell } => sheet_mut(book, *sheet).map(|s| {
             s.get_cell_mut(cell.as_str()).set_blank();
@@ -211,6 +216,15 @@ pub fn apply(book: &mut Spreadsheet, op: &Op) -> bool {
                 None
             } else {
                 let idx = *sheet % n;
+                // "@k!$C$3": the name is scoped to sheet `idx` but designates cells of sheet k
+                let mut address = address.clone();
+                if let Some(rest) = address.strip_prefix('@') {
+                    if let Some((k, tail)) = rest.split_once('!') {
+                        let k = k.parse::<usize>().unwrap_or(0) % n;
+                        let other = book.get_sheet_collection_no_check()[k].get_name().replace('\'', "''");
+                        address = format!("'{}'!{}", other, tail);
+                    }
+                }
                 sheet_mut(book, idx).map(|s| {
                     let a = if address.contains('!') { address.clone() } else { format!("'{}'!{}", s.get_name().replace('\'', "''"), address) };
                     let _ = s.add_defined_name(name.clone(), a);
@@ -488,7 +502,13 @@ pub fn gen_cell_op(rng: &mut Rng, cfg: &GenCfg, tag: &str) -> Op {
                 2 => format!("'{}'!A1+1", "Sheet1"),
                 _ => format!("SUM(A1:A{})", 1 + rng.below(5)),
             };
-            let result = if f.starts_with("SUM") || f.contains("+1") { format!("{}", rng.below(100)) } else { format!("r<{}>&", rng.below(9)) };
+            let result = if f.starts_with("SUM") || f.contains("+1") {
+                format!("{}", rng.below(100))
+            } else if rng.chance(1, 2) {
+                format!("s:{}", ["007", "TRUE", "false", "#N/A", "7e2", "001.50", " 12 ", "abc", "#DIV/0!", "1,5"][rng.usize(10)])
+            } else {
+                format!("r<{}>&", rng.below(9))
+            };
             Op::SetFormula { sheet, cell, f, result }
         }
         5 => {
@@ -570,6 +590,13 @@ pub fn style_fp(st: &umya::Style) -> String {
     }
     if let Some(a) = st.get_alignment() {
         v.push(format!("al:{:?}:{:?}:{}", a.get_horizontal(), a.get_vertical(), a.get_wrap_text()));
+    }
+    // every other field of the formatting records, as the library holds it (the number format is covered by its
+    // code above: its numeric id is representation)
+    let rest = format!("{:?}|{:?}|{:?}|{:?}|{:?}", st.get_font(), st.get_fill(), st.get_borders(), st.get_alignment(), st.get_protection());
+    let dflt = "None|None|None|None|None";
+    if rest != dflt {
+        v.push(format!("all:{}", h(rest)));
     }
     v.join("|")
 }
